@@ -6,19 +6,6 @@ Open Scope string_scope.
 
 Definition R (s : string) : string := repr_body SQ s.
 
-(* a text without its last character *)
-Fixpoint chop (s : string) : string :=
-  match s with EmptyString => "" | String c EmptyString => "" | String c r => String c (chop r) end.
-
-Definition seg_of (it : witem) : seg :=
-  match it with
-  | IField ws k v => SField ws k v
-  | IRefs ws k o sep c ids => SRefs ws k o sep c ids
-  | IChildren ws k o sep c ns => SChildren ws k o sep c (List.length ns)
-  | IRaw s => SRaw (chop s)              (* a free-text piece  text;  *)
-  | IInert s => SField "" "" ""          (* excluded by wf_node *)
-  end.
-
 (* children["child_" + str(len(children))] = child *)
 Definition number_children (vals : list pv) : list (string * pv) :=
   fold_left (fun cs v => upsert String.eqb ("child_" ++ dec (List.length cs)) v cs) vals [].
@@ -59,49 +46,3 @@ Definition top_pv_c (n : wnode) : pv :=
   | WNode id nm ty its _ => with_children (top_head id nm ty) (number_children [body_pv its])
   end.
 
-(* domain of the text-level theorem: plain keys, values, ids; layout strings made of line breaks, tabs, blanks, ( ) , ;
-   free text (IRaw: e.g. an HTML documentation) with closed quoted texts and no ';' or brace outside them *)
-Fixpoint wf_node (n : wnode) : bool :=
-  match n with
-  | WNode id nm ty its tl =>
-      headok id nm ty && wsok tl
-      && (fix items (l : list witem) : bool :=
-            match l with
-            | [] => true
-            | it :: r =>
-                match it with
-                | IInert _ => false
-                | IRaw s => String.eqb s (chop s ++ ";") && raw_ok (chop s)
-                | IChildren ws k o sep c ns =>
-                    seg_ok (seg_of it) && (fix each (l : list wnode) : bool := match l with [] => true | x :: t => wf_node x && each t end) ns
-                | _ => seg_ok (seg_of it)
-                end && items r
-            end) its
-  end.
-
-(* braces: none in ids, names, types, keys, reference ids and unquoted values; a "quoted value" may hold them *)
-Fixpoint nbq_node (n : wnode) : bool :=
-  match n with
-  | WNode id nm ty its tl =>
-      nobrace id && nobrace (name_text nm) && nobrace ty
-      && (fix items (l : list witem) : bool :=
-            match l with
-            | [] => true
-            | it :: r =>
-                match it with
-                | IField _ k v => nobrace k && (prefixb dq v || nobrace v)
-                | IRefs _ k _ _ _ ids => nobrace k && forallb nobrace ids
-                | IChildren _ k _ _ _ ns => nobrace k && (fix each (l : list wnode) : bool := match l with [] => true | x :: t => nbq_node x && each t end) ns
-                | _ => true
-                end && items r
-            end) its
-  end.
-
-(* str(bytes) quotes with an apostrophe unless the bytes hold an apostrophe and no double quote *)
-(* the domain for a row's blob: as wf_node, but the NAME in the top-level header may hold colons *)
-Definition wf_top (n : wnode) : bool :=
-  match n with
-  | WNode id nm ty its tl => headok_top id nm ty && wf_node (WNode id None ty its tl)
-  end.
-
-Definition quote_ok (s : string) : bool := negb (no_char DQ s) || no_char SQ s.
